@@ -155,28 +155,32 @@ pub fn strategy() -> impl Strategy<Value = Case> {
         any::<bool>(),
         (prop::bool::weighted(0.5), any::<[bool; 3]>(), prop::bool::weighted(0.4)),
     )
-        .prop_map(|(mut filter, mut msg, suffix, borrowed, (force_log, own, valid_min))| {
-            // bias: more log messages (level rule), id lists that contain the message's own ids (so that later criteria decide)
-            if let Some(e) = &mut msg.ext {
-                // (only for types whose payload kind does not depend on the type: not network trace, not control)
-                if force_log && !matches!((e.msin >> 1) & 7, 2 | 3) {
-                    e.msin &= 0xf1;
-                }
-                if let (true, Some(l)) = (own[0], &mut filter.app_ids) {
-                    l.push(e.apid.clone());
-                }
-                if let (true, Some(l)) = (own[1], &mut filter.context_ids) {
-                    l.push(e.ctid.clone());
-                }
+        .prop_map(|(filter, msg, suffix, borrowed, (force_log, own, valid_min))| assemble(filter, msg, suffix, borrowed, force_log, own, valid_min))
+}
+
+/// biases applied to a generated (filter, message) pair: more log messages (level rule), id lists that contain the
+/// message's own ids (so that later criteria decide), a minimum level inside 1..=6
+pub fn assemble(mut filter: Filter, mut msg: RMsg, suffix: Vec<u8>, borrowed: bool, force_log: bool, own: [bool; 3], valid_min: bool) -> Case {
+        // bias: more log messages (level rule), id lists that contain the message's own ids (so that later criteria decide)
+        if let Some(e) = &mut msg.ext {
+            // (only for types whose payload kind does not depend on the type: not network trace, not control)
+            if force_log && !matches!((e.msin >> 1) & 7, 2 | 3) {
+                e.msin &= 0xf1;
             }
-            if let (true, Some(l), Some(id)) = (own[2], &mut filter.ecu_ids, &msg.ecu) {
-                l.push(id.clone());
+            if let (true, Some(l)) = (own[0], &mut filter.app_ids) {
+                l.push(e.apid.clone());
             }
-            if let (true, Some(l)) = (valid_min, &mut filter.min_log_level) {
-                *l = 1 + *l % 6;
+            if let (true, Some(l)) = (own[1], &mut filter.context_ids) {
+                l.push(e.ctid.clone());
             }
-            Case { filter, msg, suffix, borrowed }
-        })
+        }
+        if let (true, Some(l), Some(id)) = (own[2], &mut filter.ecu_ids, &msg.ecu) {
+            l.push(id.clone());
+        }
+        if let (true, Some(l)) = (valid_min, &mut filter.min_log_level) {
+            *l = 1 + *l % 6;
+        }
+        Case { filter, msg, suffix, borrowed }
 }
 
 pub fn run(run: &Run) {
